@@ -64,6 +64,8 @@ class Speller:
                 body += '\\%x ' % ord(ch)
             else:
                 body += ch
+            if self.r.random() < 0.08 * self.level:
+                body += '\\' + self.r.choice(['\n', '\r\n', '\f'])      # escaped newline: continues the string, adds nothing
         return q + body + q
 
 
